@@ -127,13 +127,30 @@ def entries_for(rng, quick):
                     k += 1
 
 
+# closures over a binding that can fail: the binding is made when the closure is built, whether
+# or not the closure is ever called (the lambda-lifting passes must not move it below the lambda)
+CLOSURES = [
+    ("closure-over-expect-cast", "fn mk_{k}(d: Data) -> fn(Int) -> Int {\n  expect v: Int = d\n  fn(z) { v + z }\n}\n\npub fn entry_{k}(d: Data, b: Bool) -> Data {\n  let g = mk_{k}(d)\n  let result: Data =\n    if b {\n      g(1)\n    } else {\n      0\n    }\n  result\n}\n", [D, BOOL]),
+    ("closure-over-division", "fn mk_{k}(a: Int) -> fn(Int) -> Int {\n  let x = 10 / a\n  fn(z) { x + z }\n}\n\npub fn entry_{k}(a: Int, b: Bool) -> Data {\n  let g = mk_{k}(a)\n  let result: Data =\n    if b {\n      g(1)\n    } else {\n      0\n    }\n  result\n}\n", [I, BOOL]),
+    ("closure-over-head-list", "fn mk_{k}(xs: List<Data>) -> fn(Int) -> Data {\n  let h = builtin.head_list(xs)\n  fn(z) { if z > 0 { h } else { builtin.i_data(z) } }\n}\n\npub fn entry_{k}(xs: List<Data>, b: Bool) -> Data {\n  let g = mk_{k}(xs)\n  let result: Data =\n    if b {\n      g(1)\n    } else {\n      0\n    }\n  result\n}\n", [LD, BOOL]),
+    ("closure-in-list-never-called", "fn mk_{k}(a: Int) -> fn(Int) -> Int {\n  let x = 10 / a\n  fn(z) { x * z }\n}\n\npub fn entry_{k}(a: Int, b: Bool) -> Data {\n  let fs = [mk_{k}(a), mk_{k}(a + 1)]\n  let result: Data =\n    when fs is {\n      [f, ..] if b -> f(2)\n      _ -> 0\n    }\n  result\n}\n", [I, BOOL]),
+    ("closure-two-levels", "fn mk_{k}(a: Int) -> fn(Int) -> fn(Int) -> Int {\n  let x = 10 / a\n  fn(y) {\n    let w = 10 / y\n    fn(z) { x + w + z }\n  }\n}\n\npub fn entry_{k}(a: Int, b: Bool) -> Data {\n  let g = mk_{k}(a)\n  let h = g(a - 1)\n  let result: Data =\n    if b {\n      h(1)\n    } else {\n      0\n    }\n  result\n}\n", [I, BOOL]),
+]
+
+
 def cases(seed, n_args, quick=True, per_module=6):
     rng = common.Rng(seed, 202)
     out = []
     cur = []
-    for k, src, ptys, label in entries_for(rng, quick):
+    base = list(entries_for(rng, quick))
+    k0 = len(base)
+    closures = [(k0 + i, src.replace("{k}", str(k0 + i)), ptys, name + "|closure") for i, (name, src, ptys) in enumerate(CLOSURES)]
+    for k, src, ptys, label in base + closures:
         tuples = []
-        for _ in range(n_args):
+        if label.endswith("|closure"):
+            # every first-argument value x both flags: the failing binding with the closure never called
+            tuples = [[arg_json(ptys[0], v), arg_json(BOOL, f)] for v in ARG_VALUES[ptys[0]] for f in (0, 1)]
+        for _ in range(n_args if not tuples else 0):
             tuples.append([arg_json(t, rng.pick(ARG_VALUES[t])) for t in ptys])
         cur.append((k, src, tuples, label))
         if len(cur) == per_module:
